@@ -11,5 +11,5 @@ LEVEL_TEXT = "Coq theorems about _MessageSerializer.serialize in the model (fiel
 LEVEL_NOTE = 'Trusted: Coq kernel; hand-written model Model/Core.v + Model/Prog.v tied to /repo by per-run correspondence on generated logging programs (real control flow, real threads for hand-offs); Python harness. Serializer functions come from a small library implemented on both sides (id, succ, double, const, fail, fail-on-negative); the theorems quantify over arbitrary functions.'
 
 FAMILIES = [
-    progs.program_family("programs", oracles.oracle_c13, 150, 3000, deep=dict(depth=5), **dict(p_globals=0.5, fault=0.3, registry_rate=0.0, p_fault_ser=0.3, p_typed=0.8, p_raw=0.15)),
+    progs.program_family("programs", oracles.oracle_c13, 150, 3000, deep=dict(depth=5), **dict(p_globals=0.5, fault=0.3, registry_rate=0.0, p_fault_ser=0.3, p_typed=0.8, p_raw=0.12)),
 ]
